@@ -17,6 +17,9 @@ type RaceReport struct {
 	Lines [2]string
 	// Top: the innermost frame of each access, whatever package it is in.
 	Top [2]string
+	// InTask: the access happened in the operation code of a simulated
+	// caller (its stack passes through runTask).
+	InTask [2]bool
 }
 
 // Signature identifies the racing pair of library functions.
@@ -58,6 +61,9 @@ func ParseRace(stderr string) *RaceReport {
 		if sec >= 0 && sec <= 1 && r.Top[sec] == "" && t != "" && !strings.HasPrefix(t, "/") && strings.Contains(t, "(") {
 			r.Top[sec] = t
 		}
+		if sec >= 0 && sec <= 1 && strings.Contains(t, "(*epochRun).runTask(") {
+			r.InTask[sec] = true
+		}
 		if sec < 0 || sec > 1 || r.Frames[sec] != "" {
 			continue
 		}
@@ -90,7 +96,7 @@ func SameRace(sig string, r *RaceReport) bool {
 		return false
 	}
 	if !r.InLibrary() {
-		return sig == "|" && r.InStdlibOnValues()
+		return sig == "|" && (r.InStdlibOnValues() || r.BetweenCallers())
 	}
 	for _, f := range strings.Split(sig, "|") {
 		if f != "" && (f == r.Frames[0] || f == r.Frames[1]) {
@@ -111,4 +117,15 @@ func (r *RaceReport) InStdlibOnValues() bool {
 		}
 	}
 	return true
+}
+
+// BetweenCallers reports whether the two accesses are made by the own code of
+// two simulated callers (what a caller does with its results and buffers:
+// reading a result, overwriting a slice it was given, recycling it) with no
+// library frame on either stack. The callers share nothing writable with each
+// other, and every harness structure they share is accessed in functions the
+// detector does not see; so the memory must have been handed out by the
+// library to both of them (a package-level table returned as a result, say).
+func (r *RaceReport) BetweenCallers() bool {
+	return !r.InLibrary() && r.InTask[0] && r.InTask[1]
 }
